@@ -504,6 +504,30 @@ func cmdFaults(args []string) {
 		if a2 > a1 && float64(a4-a2) > 2.7*float64(a2-a1)+float64(1<<18) {
 			emit(parseVerdict{Kind: "alloc", Type: *typ, In: []int{}, Note: fmt.Sprintf("superlinear: %d / %d / %d bytes allocated for 500 / 1000 / 2000 nesting levels with unknown fields", a1, a2, a4), Fault: "nested-unknown"})
 		}
+		// the same chains with a MALFORMED innermost message (an unterminated varint): rejecting
+		// costs no more than linear either (an error that is re-wrapped with the path so far at
+		// every level on the way out is quadratic)
+		allocBad := func(depth int) uint64 {
+			x := nestedWithUnknown(md, path, depth)
+			x[len(x)-1] = 0x80
+			best := ^uint64(0)
+			for rep := 0; rep < 3; rep++ {
+				m := mt.New().Interface()
+				var ms0, ms1 runtime.MemStats
+				runtime.ReadMemStats(&ms0)
+				bounded(func() { _ = proto.Unmarshal(x, m) })
+				runtime.ReadMemStats(&ms1)
+				if d := ms1.TotalAlloc - ms0.TotalAlloc; d < best {
+					best = d
+				}
+			}
+			return best
+		}
+		b1, b2, b4 := allocBad(500), allocBad(1000), allocBad(2000)
+		cases += 3
+		if b2 > b1 && float64(b4-b2) > 2.7*float64(b2-b1)+float64(1<<18) {
+			emit(parseVerdict{Kind: "alloc", Type: *typ, In: []int{}, Note: fmt.Sprintf("superlinear: %d / %d / %d bytes allocated while REJECTING 500 / 1000 / 2000 nesting levels whose innermost message is malformed", b1, b2, b4), Fault: "nested-reject"})
+		}
 	}
 	// time grows linearly with the input also when map entries lie about their content: an entry
 	// that holds only a value record whose declared length runs PAST the entry, to the end of the
@@ -932,17 +956,26 @@ func shapePath(md protoreflect.MessageDescriptor, shape string) []protoreflect.F
 // nestedPath encodes `depth` message levels along the cycle (map fields as entries holding only
 // the value), built inside-out.
 func nestedPath(path []protoreflect.FieldDescriptor, depth int) []byte {
-	var payload []byte
+	// built from the inside out without copying the payload at every level (that is quadratic in
+	// the depth): only the headers are kept, each knowing the size of everything behind it
+	var headers [][]byte
+	size := 0
 	for k := depth - 2; k >= 0; k-- {
 		fd := path[k%len(path)]
-		var lvl []byte
+		var h []byte
 		if fd.IsMap() {
-			entry := protowire.AppendBytes(protowire.AppendTag(nil, 2, protowire.BytesType), payload)
-			lvl = protowire.AppendBytes(protowire.AppendTag(nil, fd.Number(), protowire.BytesType), entry)
+			inner := protowire.AppendVarint(protowire.AppendTag(nil, 2, protowire.BytesType), uint64(size))
+			h = protowire.AppendVarint(protowire.AppendTag(nil, fd.Number(), protowire.BytesType), uint64(len(inner)+size))
+			h = append(h, inner...)
 		} else {
-			lvl = protowire.AppendBytes(protowire.AppendTag(nil, fd.Number(), protowire.BytesType), payload)
+			h = protowire.AppendVarint(protowire.AppendTag(nil, fd.Number(), protowire.BytesType), uint64(size))
 		}
-		payload = lvl
+		headers = append(headers, h)
+		size += len(h)
+	}
+	payload := make([]byte, 0, size)
+	for i := len(headers) - 1; i >= 0; i-- {
+		payload = append(payload, headers[i]...)
 	}
 	return payload
 }
